@@ -453,6 +453,11 @@ func (w *Writer) ReadFrom(src io.Reader) (n int64, err error) {
 		w.n += nn
 		n += int64(nn)
 	}
+	if n > 0 {
+		// Some bytes were taken (and maybe already sent as fragments) even if
+		// src failed afterwards; Flush() must still finish the message.
+		w.dirty = true
+	}
 	if err == io.EOF {
 		// NOTE: Do not flush preemptively.
 		// See the Write() sources for more info.
